@@ -225,6 +225,18 @@ def rules_addressable(rs, rcanon):
                 node = kids[name]
             if (not names or section == "keys") and not refmerge.is_aoh(node):
                 return False
+            if section == "rules":
+                # the policy named must be one the addressed node's kind has
+                # (anything else is a configuration error, not a merge)
+                value = rs["rules"][path]
+                if node[0] == "m" and value not in ("deep", "left", "right"):
+                    return False
+                if node[0] == "s" and value not in ("left", "right",
+                                                    "unique"):
+                    return False
+                if node[0] == "l" and not refmerge.is_aoh(node) and \
+                        value not in ("all", "left", "right", "unique"):
+                    return False
     return True
 
 
